@@ -180,6 +180,10 @@ def main():
     if not build_broken:
         coq_results, coq_s, coq_logs = core.eval_cases_in_coq(
             pid, P.CHECK_REQUIRE, terms, shard=getattr(P, "SHARD", 150), extra_Q=getattr(P, "EXTRA_Q", ()))
+    if hasattr(P, "post_eval") and not build_broken:
+        for i, okv in P.post_eval(cases, obs_list).items():
+            if not okv and i < len(coq_results):
+                coq_results[i] = False
     agree = sum(1 for r in coq_results if r is True)
     disagree_idx = [i for i, r in enumerate(coq_results) if r is not True]
 
